@@ -111,9 +111,14 @@ func init() {
 	for _, s := range specs {
 		if s.QuickS == 0 {
 			s.QuickS = 30
+			if s.Engine == "cluster" {
+				// (30 s was enough for most seeded changes, but three of them fell just outside the
+				// first ~7 000 seeds after the generator grew more fault kinds: 60 s.)
+				s.QuickS = 60
+			}
 		}
 		if s.ThoroughS == 0 {
-			s.ThoroughS = 1200
+			s.ThoroughS = 600
 		}
 		s.Assume = append(s.Assume, commonAssume...)
 	}
@@ -355,8 +360,11 @@ func runBatch(b *build, sp *spec, tier string, baseSeed uint64, budget float64, 
 		wg.Add(1)
 		go func(w int) {
 			defer wg.Done()
-			profile := sp.Profiles[w%nprof]
-			args := []string{"-profile", profile, "-seed", strconv.FormatUint(baseSeed+uint64(w), 10), "-stride", strconv.Itoa(workers),
+			// The profile of a seed depends on the seed alone (not on the number of workers): the
+			// workers together explore the contiguous range of seeds from the base upwards.
+			profile := strings.Join(sp.Profiles, ",")
+			_ = nprof
+			args := []string{"-profiles", profile, "-base", strconv.FormatUint(baseSeed, 10), "-seed", strconv.FormatUint(baseSeed+uint64(w), 10), "-stride", strconv.Itoa(workers),
 				"-n", "100000000", "-budget", fmt.Sprintf("%.1f", budget), "-states"}
 			if tier == "thorough" {
 				args = append(args, "-thorough")
